@@ -6,13 +6,13 @@ Local Open Scope Z_scope.
 (** change of totalSupply caused by a call with result [r] *)
 Definition dtotal (cl : call) (r : cres) : Z :=
   if cr_ok r then
-    match cl with CMint _ a => a | CBurnCoins _ a => - a | CBurn a => - a | _ => 0 end
+    match cl with CMint _ a => a | CBurnCoins _ a => - a | CBurn a => - a | CBurnFrom _ a => - a | _ => 0 end
   else 0.
 
 Lemma std_call_total owner t caller cl t' r :
   std_call owner t caller cl = (t', r) -> st_total t' = st_total t + dtotal cl r.
 Proof.
-  unfold std_call, dtotal. destruct cl as [x|to amt|to amt|from amt|amt].
+  unfold std_call, dtotal. destruct cl as [x|to amt|to amt|from amt|amt|sp amt|sp amt|sp amt|from to amt|from amt].
   - intro H; inversion H; subst; cbn. ring.
   - destruct ((amt <? 0) || (caller =? 0) || (to =? 0) || (zget (st_bal t) caller <? amt));
       intro H; inversion H; subst; cbn; ring.
@@ -22,22 +22,37 @@ Proof.
       intro H; inversion H; subst; cbn; ring.
   - destruct ((amt <? 0) || (caller =? 0) || (zget (st_bal t) caller <? amt));
       intro H; inversion H; subst; cbn; ring.
+  - destruct ((amt <? 0) || (W256 <=? amt) || (caller =? 0) || (sp =? 0));
+      intro H; inversion H; subst; cbn; ring.
+  - destruct ((amt <? 0) || (caller =? 0) || (sp =? 0) || (W256 <=? alget (st_allow t) caller sp + amt));
+      intro H; inversion H; subst; cbn; ring.
+  - destruct ((amt <? 0) || (caller =? 0) || (sp =? 0) || (alget (st_allow t) caller sp <? amt));
+      intro H; inversion H; subst; cbn; ring.
+  - destruct ((amt <? 0) || (caller =? 0) || (from =? 0) || (to =? 0) || (zget (st_bal t) from <? amt)
+              || (alget (st_allow t) from caller <? amt)); intro H; inversion H; subst; cbn; ring.
+  - destruct ((amt <? 0) || (caller =? 0) || (from =? 0) || (alget (st_allow t) from caller <? amt)
+              || (zget (st_bal t) from <? amt)); intro H; inversion H; subst; cbn; ring.
 Qed.
 
 (** only the role holder can make totalSupply grow *)
 Lemma std_call_total_le owner t caller cl t' r :
   std_call owner t caller cl = (t', r) -> caller <> owner -> st_total t' <= st_total t.
 Proof.
-  unfold std_call. intros H N. destruct cl as [x|to amt|to amt|from amt|amt].
-  - inversion H; subst; cbn. lia.
-  - destruct ((amt <? 0) || (caller =? 0) || (to =? 0) || (zget (st_bal t) caller <? amt));
-      inversion H; subst; cbn; lia.
-  - destruct (Z.eqb_spec caller owner) as [E|_]; [contradiction|]. cbn [negb orb] in H.
-    rewrite orb_true_r in H. inversion H; subst. lia.
-  - destruct (Z.eqb_spec caller owner) as [E|_]; [contradiction|]. cbn [negb orb] in H.
-    rewrite orb_true_r in H. inversion H; subst. lia.
-  - destruct (amt <? 0) eqn:A; cbn [orb] in H; [inversion H; subst; lia|]. apply Z.ltb_ge in A.
-    destruct ((caller =? 0) || (zget (st_bal t) caller <? amt)); inversion H; subst; cbn; lia.
+  intros H N.
+  assert (G : (forall sp a, cl <> CMint sp a) \/ exists sp a, cl = CMint sp a).
+  { destruct cl; try (left; intros; discriminate). right; eauto. }
+  destruct G as [G|(sp & a & ->)].
+  2:{ unfold std_call in H. destruct (Z.eqb_spec caller owner) as [E|_]; [contradiction|]. cbn [negb orb] in H.
+      rewrite orb_true_r in H. inversion H; subst. lia. }
+  pose proof (std_call_total _ _ _ _ _ _ H) as T. rewrite T. unfold dtotal.
+  destruct (cr_ok r) eqn:O; [|lia].
+  assert (P : match cl with CBurnCoins _ a | CBurn a | CBurnFrom _ a => 0 <= a | _ => True end).
+  { unfold std_call in H. destruct cl as [x|to amt|to amt|from amt|amt|sp amt|sp amt|sp amt|from to amt|from amt];
+      try exact I.
+    - destruct (amt <? 0) eqn:A; cbn [orb] in H; [inversion H; subst; discriminate | apply Z.ltb_ge in A; exact A].
+    - destruct (amt <? 0) eqn:A; cbn [orb] in H; [inversion H; subst; discriminate | apply Z.ltb_ge in A; exact A].
+    - destruct (amt <? 0) eqn:A; cbn [orb] in H; [inversion H; subst; discriminate | apply Z.ltb_ge in A; exact A]. }
+  destruct cl; try lia. exfalso. eapply G. reflexivity.
 Qed.
 
 Section TokLemmas.
@@ -173,7 +188,7 @@ Section TokLemmas.
     mfind tk c = Some t -> token_effect xcall MODULE tk tk' c MODULE (CMint r a) r a res ->
     exists t', mfind tk' c = Some t' /\
       (forall x, zget (st_bal t') x = zget (st_bal t) x + ind (x =? r) a) /\
-      st_total t' = st_total t + a /\
+      st_total t' = st_total t + a /\ st_allow t' = st_allow t /\
       (forall c', c' <> c -> mfind tk' c' = mfind tk c') /\ snd tk' = snd tk.
   Proof.
     intros F (tk0 & v0 & tk1 & v1 & B0 & E & O & B1 & V).
@@ -184,7 +199,7 @@ Section TokLemmas.
     exists t1. split; [exact F2|].
     unfold std_call in S.
     destruct ((a <? 0) || negb (MODULE =? MODULE) || (r =? 0) || (W256 <=? st_total t + a)); inversion S; subst;
-      [cbn in O; discriminate|]. cbn [st_bal st_total].
+      [cbn in O; discriminate|]. cbn [st_bal st_total st_allow].
     repeat split.
     - intro x. rewrite zget_zset. unfold ind. rewrite (Z.eqb_sym x r). destruct (r =? x) eqn:EQ.
       + apply Z.eqb_eq in EQ; subst. reflexivity.
@@ -198,7 +213,7 @@ Section TokLemmas.
     mfind tk c = Some t -> token_effect xcall MODULE tk tk' c MODULE (CBurnCoins u a) u (- a) res ->
     exists t', mfind tk' c = Some t' /\ a <= zget (st_bal t) u /\
       (forall x, zget (st_bal t') x = zget (st_bal t) x + ind (x =? u) (- a)) /\
-      st_total t' = st_total t - a /\
+      st_total t' = st_total t - a /\ st_allow t' = st_allow t /\
       (forall c', c' <> c -> mfind tk' c' = mfind tk c') /\ snd tk' = snd tk.
   Proof.
     intros F (tk0 & v0 & tk1 & v1 & B0 & E & O & B1 & V).
@@ -211,7 +226,7 @@ Section TokLemmas.
     destruct ((a <? 0) || negb (MODULE =? MODULE) || (u =? 0)) eqn:G1; cbn [orb] in S;
       [inversion S; subst; cbn in O; discriminate|].
     destruct (zget (st_bal t) u <? a) eqn:L; inversion S; subst; [cbn in O; discriminate|].
-    apply Z.ltb_ge in L. cbn [st_bal st_total].
+    apply Z.ltb_ge in L. cbn [st_bal st_total st_allow].
     repeat split.
     - exact L.
     - intro x. rewrite zget_zset. unfold ind. rewrite (Z.eqb_sym x u). destruct (u =? x) eqn:EQ.
